@@ -44,6 +44,10 @@ def unmarshaller(
     if not nodes:
         return routines.NoOpUnmarshaller(t=t, context=context, var=None)  # type: ignore[arg-type]
 
+    # The type graph skips members annotated `Any` (there is nothing to resolve),
+    #   but composite routines still look their member type up: it passes through.
+    context[tp.Any] = routines.NoOpUnmarshaller(t=tp.Any, context=context, var=None)  # type: ignore[arg-type]
+
     # "root" type will always be the final node in the sequence.
     root = nodes[-1]
     for node in nodes:
